@@ -90,11 +90,11 @@ def defined(op, ta, tb, A, B):
         pa = promote(ta)
         w = TY[pa][1]
         c = 'MI(%s) >= 0 && MI(%s) < %d' % (B, B, w)
-        if TY[pa][2]:
-            c += ' && MI(%s) >= 0' % A
-            if op == '<<':
-                lo, hi = lim(pa)
-                c += ' && (MI(%s) << MI(%s)) <= %s' % (A, B, mi(hi))
+        if TY[pa][2] and op == '<<':
+            # left shift of a negative value / into the sign bit is undefined; a right shift of a negative value is
+            # implementation-defined (arithmetic on every supported compiler and in cbmc), so it stays in the domain
+            lo, hi = lim(pa)
+            c += ' && MI(%s) >= 0 && (MI(%s) << MI(%s)) <= %s' % (A, A, B, mi(hi))
         return c
     return '1'
 
